@@ -22,7 +22,7 @@ func init() {
 			"(README convention, minus static/construction-only fields) happens with that lock held on every call path from every entry point, including writes through slice/map " +
 			"values copied out of shared state (origin classes); LOCK-5 no network/sleep call while a server lock is held; KEYSET the three id-keyed maps are inserted into and deleted " +
 			"from together; LOCK-6 a pointer taken from a guarded map is dereferenced only if the key was validated in the same critical section (lock operations invalidate earlier facts). " +
-			"LOCK-7 a guarded write is addressed (index, map key) only by values read in its own critical section - a value loaded from guarded state in an earlier section must be re-read (what an effectful call returns counts as new data); LOCK-8 a function that takes a lock does not return a slice, map or pointer into the storage that lock protects (it hands out a copy). NOT decided: that the final state equals the sequential result (linearizability is a claim about histories; these rules establish its precondition: every shared access is " +
+			"LOCK-7 a guarded write is addressed (index, map key) only by values read in its own critical section - a value loaded from guarded state in an earlier section must be re-read (what an effectful call returns counts as new data); LOCK-8 a function that takes a lock does not return a slice, map or pointer into the storage that lock protects (it hands out a copy). LOCK-9 a guarded write (direct, or by a callee running inside the critical section) is not decided by a test of guarded state read in an earlier critical section (check-then-act across an unlock). NOT decided: that the final state equals the sequential result (linearizability is a claim about histories; these rules establish its precondition: every shared access is " +
 			"inside one critical section and multi-section jobs re-validate), races inside dependencies, scheduler behaviour.",
 		Assumptions: baseAssumptions,
 		Run:         runC13,
@@ -369,10 +369,75 @@ func staleAddressing(c *an.Ctx, spec an.GuardSpec, scope []*ssa.Function) {
 				}
 			}
 			walk(fi.Term(addr))
+			// LOCK-9: ... nor decided by one: a fact that dominates the write and was established on guarded state
+			// read in an earlier critical section is a check-then-act across an unlock (the state may have changed)
+			if stale == "" {
+				for _, f := range fi.FactsAt(a.Instr) {
+					if stale != "" {
+						break
+					}
+					walk(f.T)
+				}
+				if stale != "" {
+					c.Violated("LOCK-9", fn, a.Instr.Pos(), an.KeyOf(fn, "stale-guard:"+a.Cls.String()), "a write of "+a.Cls.String()+" is decided by a test of guarded state that was read in an earlier critical section and not re-validated after re-locking (check-then-act across an unlock)", stale)
+					continue
+				}
+			}
 			if stale != "" {
 				c.Violated("LOCK-7", fn, a.Instr.Pos(), an.KeyOf(fn, "stale-address:"+a.Cls.String()), "a write of "+a.Cls.String()+" is addressed by guarded state read in an earlier critical section (not re-read after re-locking): the result differs from every sequential run when the state changed in between", stale)
 			} else {
 				c.Proved("LOCK-7", fn, a.Instr.Pos(), an.KeyOf(fn, "fresh-address:"+a.Cls.String()), "the guarded write is addressed only by values read in its own critical section (or by unguarded/local values)", "sections of the loads inside the address term")
+			}
+		}
+		// LOCK-9 for writes performed by a callee that runs inside this function's critical section
+		for _, b := range fn.Blocks {
+			for _, in := range b.Instrs {
+				call, ok := in.(*ssa.Call)
+				if !ok || !an.Held(lf.StateAt(call, spec.Lock)) {
+					continue
+				}
+				sc := call.Call.StaticCallee()
+				if sc == nil || !an.IsRepoFunc(sc) {
+					continue
+				}
+				writes := false
+				for _, w := range p.Effect(sc).Writes {
+					if guarded(w) {
+						writes = true
+					}
+				}
+				if !writes {
+					continue
+				}
+				n++
+				cur := section(call)
+				stale := ""
+				var walk func(t *an.Term)
+				walk = func(t *an.Term) {
+					if t == nil || stale != "" || t.K == an.KCall {
+						return
+					}
+					if t.K == an.KLoad {
+						if ld, ok := t.Val.(*ssa.UnOp); ok && ld.Parent() == fn && guarded(fi.RefClass(ld.X)) {
+							if s := section(ld); s != cur {
+								stale = "the test of " + short(t.Key()) + " loaded at " + p.Pos(ld.Pos()) + " (critical section " + s + ") decides a write made in critical section " + cur
+								return
+							}
+						}
+					}
+					for _, a := range t.A {
+						walk(a)
+					}
+				}
+				for _, f := range fi.FactsAt(call) {
+					walk(f.T)
+				}
+				key := an.KeyOf(fn, "stale-guard:call:"+an.FuncName(sc))
+				if stale != "" {
+					c.Violated("LOCK-9", fn, call.Pos(), key, "the call of "+an.FuncName(sc)+", which writes guarded state, is decided by a test of guarded state read in an earlier critical section and not re-validated after re-locking (check-then-act across an unlock)", stale)
+				} else {
+					c.Proved("LOCK-9", fn, call.Pos(), key, "the guarded writes of "+an.FuncName(sc)+" are decided only by state read in the critical section they happen in", "sections of the loads inside the dominating facts")
+				}
 			}
 		}
 	}
